@@ -218,7 +218,7 @@ func c07Function(c *Ctx, fn *ssa.Function) {
 		}
 		// listings: max L1 from level 1, candidates from level 0
 		lv := map[int64]int{}
-		for _, call := range callsTo(fn, isLTXFiles) {
+		for _, call := range callsToDeep(fn, isLTXFiles) {
 			if n, ok := constInt(namedArg(call, "level")); ok {
 				lv[n]++
 			}
